@@ -19,6 +19,8 @@ pub const A_CONSUMER: u32 = 5; // a sibling consumer handle of my stream is clon
 pub const A_CLAIM: u32 = 6; // (kept for the catalogue; folded into A_PUBLISH)
 
 pub static mut ENV_PER_POINT: usize = 1;
+pub static mut G_ADDING_STREAM: bool = false;
+pub static mut G_PUBLISHED_POS: usize = 0;
 pub static mut G_ME_SENDER: bool = false; // the function under proof runs on a sender handle
 pub static mut G_MY_STREAM: usize = usize::MAX; // index of the stream my consumer handle reads (or MAX)
 pub static mut G_MY_READER: usize = 0; // address of my Reader handle
@@ -401,6 +403,16 @@ unsafe fn guarantee<RW: QueueRW<Pay>>(q: *const MultiQueue<RW, Pay>, kind: u8, a
         }
         G_MY_CLAIMS += 1;
         G_MY_CLAIM_COUNT = old;
+        return;
+    }
+    if addr == q.tail.vf_readers_addr() {
+        // AddStream / RemoveStream by me: publication of a new stream list
+        if G_ADDING_STREAM {
+            let newpos = ReadCursor::vf_last_pos_of_group(new);
+            let head = q.head.vf_peek();
+            assert!(newpos <= head && head - newpos <= n, "C10/C03: add_stream registers the new stream behind the window (its position was read before producers and a sibling of the parent moved on): back-pressure and values are lost");
+            G_PUBLISHED_POS = newpos;
+        }
         return;
     }
     if addr == &q.tail_cache as *const AtomicUsize as usize {
